@@ -77,6 +77,10 @@ def check(run):
     for lab, T in structured_transforms(rng, sum(s_.size for s_ in specs)):
         one_case(run, specs, T)
         run.count("transform " + lab)
+    from checks.common import structural_families
+    for lab, specs, T in structural_families(run):
+        one_case(run, specs, T)
+        run.count(lab)
     from checks.common import custom_order_family
     for k in range(2 if run.tier == "quick" else 8):
         one_case(run, custom_order_family(rng, (2, 1, 3) if k % 2 else (1, 2)))
